@@ -234,6 +234,11 @@ def main():
     res.cleanup()
     # (b) full traces of the valid runs
     traces = [r["trace"] for r in results if r["trace"] is not None]
+    # deterministic probe of the recorded finding "degenerate cluster -> singular scale matrix in the Student-t fit" (a VALID
+    # configuration that does not run to completion; see known_findings.json): the same run C14 uses
+    probe = sysrun.run_jobs([{"conf": dict(sample="rwm", clustering=True, n_particles=16, target="edge", support=0.5), "seed": 1001, "n_total": 32,
+                              "label": "probe: degenerate cluster (known finding)"}])
+    traces += probe
     fails, st = psrun.validate(traces)
     cnt = sysrun.attribute(ck, "C18", traces, fails)
     ck.sample({"valid_row": rows[0], "concrete": repr(concretize(rows[0]))})
